@@ -37,6 +37,7 @@ def jobs(tier, seed):
     n = 12 if tier == "quick" else 64
     js = [{"sub": "reader", "chunk": i, "of": n} for i in range(n)]
     js += [{"sub": "reader-fixed"}]
+    js += [{"sub": "history", "chunk": i, "of": 4} for i in range(4)]
     m = 6 if tier == "quick" else 32
     for hs in (0, 1, 2 + seed % 1000):
         js += [{"sub": "roundtrip", "chunk": i, "of": m, "hashseed": hs, "primary": hs == 0} for i in range(m)]
@@ -96,22 +97,53 @@ def lines_of(ast, spell_idx=0, ws=0):
     return out
 
 
-def check_read(acc, ast, lines, case):
+EDITS = ("add-input", "set-type", "unset-output", "remove", "relabel", "edit-after")
+
+
+def edit_circuit(c, edit):
+    """In-place edits a caller may make to a circuit obtained from the reader."""
+    gates = sorted(n for n in c.graph.nodes if c.graph.nodes[n].get("type") not in ("input", "bb_input", "bb_output"))
+    outs = sorted(c.outputs())
+    if edit == "add-input":
+        c.add("zz_extra", "input", fanout=[g for g in gates if c.graph.nodes[g].get("type") not in ("buf", "not", "0", "1")][:1])
+    elif edit == "set-type" and gates:
+        t = c.graph.nodes[gates[0]].get("type")
+        c.set_type(gates[0], {"and": "or", "or": "and", "nand": "nor", "nor": "nand", "xor": "xnor", "xnor": "xor",
+                              "buf": "not", "not": "buf"}.get(t, t))
+    elif edit == "unset-output" and outs:
+        c.set_output(outs[0], False)
+    elif edit == "remove" and gates:
+        c.remove(gates[-1])
+    elif edit == "relabel" and outs:
+        c.relabel({outs[0]: outs[0] + "_renamed"})
+
+
+def check_read(acc, ast, lines, case, site="reader"):
     import circuitgraph as cg
 
     text = "# generated\n" + "\n".join(lines) + "\n"
     acc.transitions += 1
+    edit = case.get("edit")
     try:
+        if edit and edit != "edit-after":
+            # read / edit the result in place / read the SAME text again: the second result is judged
+            edit_circuit(cg.io.bench_to_circuit(text, "top"), edit)
         c = cg.io.bench_to_circuit(text, "top")
+        if edit == "edit-after":
+            # two reads of one text, then the FIRST result is edited: the second must not notice
+            first = c
+            c = cg.io.bench_to_circuit(text, "top")
+            for e in EDITS[:5]:
+                edit_circuit(first, e)
     except Exception as e:  # noqa: BLE001
-        acc.violation("reader", f"raises:{common.exc_name(e)}", dict(case, text=text), repr(e))
+        acc.violation(site, f"raises:{common.exc_name(e)}", dict(case, text=text), repr(e))
         return
     want, free, full = ast_tables(ast)
     if set(c.inputs()) != set(ast["inputs"]):
-        acc.violation("reader", "wrong-inputs", dict(case, text=text), f"{sorted(c.inputs())} vs {sorted(ast['inputs'])}")
+        acc.violation(site, "wrong-inputs", dict(case, text=text), f"{sorted(c.inputs())} vs {sorted(ast['inputs'])}")
         return
     if set(c.outputs()) != set(ast["outputs"]):
-        acc.violation("reader", "wrong-outputs", dict(case, text=text), f"{sorted(c.outputs())} vs {sorted(ast['outputs'])}")
+        acc.violation(site, "wrong-outputs", dict(case, text=text), f"{sorted(c.outputs())} vs {sorted(ast['outputs'])}")
         return
     # flops
     insts = {}
@@ -122,16 +154,16 @@ def check_read(acc, ast, lines, case):
             if qpins:
                 hit = (inst, bb, qpins[0])
         if hit is None:
-            acc.violation("reader", "dff-missing", dict(case, text=text), f"no blackbox output drives {q}")
+            acc.violation(site, "dff-missing", dict(case, text=text), f"no blackbox output drives {q}")
             return
         inst, bb, qp = hit
         dp = [p for p in bb.inputs() if d in c.graph.pred.get(f"{inst}.{p}", ())]
         if not dp:
-            acc.violation("reader", "dff-d-not-connected", dict(case, text=text), f"{inst}: no input pin driven by {d}")
+            acc.violation(site, "dff-d-not-connected", dict(case, text=text), f"{inst}: no input pin driven by {d}")
             return
         insts[q] = f"{inst}.{qp}"
     if len(c.blackboxes) != len(ast["dffs"]):
-        acc.violation("reader", "wrong-number-of-blackboxes", dict(case, text=text), sorted(c.blackboxes))
+        acc.violation(site, "wrong-number-of-blackboxes", dict(case, text=text), sorted(c.blackboxes))
         return
     assign, _ = refsim.free_assign(free)
     a2 = {}
@@ -140,14 +172,14 @@ def check_read(acc, ast, lines, case):
     try:
         val = refsim.evaluate(c.graph, a2, full)
     except (refsim.RefError, KeyError) as e:
-        acc.violation("reader", "result-unevaluable", dict(case, text=text), repr(e))
+        acc.violation(site, "result-unevaluable", dict(case, text=text), repr(e))
         return
     for net, w in want.items():
         if net not in val:
-            acc.violation("reader", "net-missing", dict(case, text=text, net=net), net)
+            acc.violation(site, "net-missing", dict(case, text=text, net=net), net)
             return
         if val[net][1] or val[net][0] != w:
-            acc.violation("reader", "net-function-wrong", dict(case, text=text, net=net), f"net {net} does not compute what the text denotes")
+            acc.violation(site, "net-function-wrong", dict(case, text=text, net=net), f"net {net} does not compute what the text denotes")
             return
     acc.outcome("read-ok")
 
@@ -220,6 +252,26 @@ def run_reader_fixed(job, acc):
     acc.observe(acc.states)
 
 
+def run_history(job, acc):
+    """read / edit / read histories on one text (every AST of the fixed family and of the small space, every edit)."""
+    def asts():
+        yield from fixed_asts()
+        for gates in space.circuits(2, 2, max_arity=2, types=("and", "xor", "not", "nor"), min_gates=1):
+            d = space.to_desc(2, gates, outputs="sinks")
+            yield {"inputs": [n for n, t, _f, _o in d["nodes"] if t == "input"], "outputs": [n for n, _t, _f, o in d["nodes"] if o],
+                   "gates": [[n, t, fi] for n, t, fi, _o in d["nodes"] if t != "input"], "dffs": []}
+
+    for _idx, ast in space.chunk(asts(), job["chunk"], job["of"]):
+        base = lines_of(ast, 0, 0)
+        for edit in EDITS:
+            acc.states += 1
+            acc.nontrivial += 1
+            check_read(acc, ast, base, {"kind": "read", "ast": ast, "spell": 0, "order": list(range(len(base))), "ws": 0,
+                                        "edit": edit, "site": "history"}, site="history")
+        acc.sample({"ast": ast})
+    acc.observe(acc.states)
+
+
 def check_roundtrip(acc, desc, order=None):
     import circuitgraph as cg
 
@@ -279,7 +331,7 @@ def run_roundtrip(job, acc):
 def run(job):
     common.setup_paths()
     acc = Acc(job)
-    {"reader": run_reader, "reader-fixed": run_reader_fixed, "roundtrip": run_roundtrip}[job["sub"]](job, acc)
+    {"reader": run_reader, "reader-fixed": run_reader_fixed, "roundtrip": run_roundtrip, "history": run_history}[job["sub"]](job, acc)
     return acc.result()
 
 
@@ -293,7 +345,7 @@ def replay(case, job):
             lines = [x for l in base for x in (l, "")]
         else:
             lines = [base[i] for i in case["order"]]
-        check_read(acc, ast, lines, {k: v for k, v in case.items() if k not in ("text", "net")})
+        check_read(acc, ast, lines, {k: v for k, v in case.items() if k not in ("text", "net")}, site=case.get("site", "reader"))
     else:
         check_roundtrip(acc, case["desc"], order=case.get("order"))
     return acc.result()
